@@ -13,6 +13,7 @@ stay valid, and touch session id / system bytes only in a SetSessionIDAndSystemB
 import SecsModel.Model.Msg
 import SecsModel.Model.Fill
 import SecsModel.Generated.Facts
+import SecsModel.Proofs.FillWF
 namespace Secs.C18
 open Secs
 
@@ -244,6 +245,57 @@ theorem producers_seq (m : Msg) (cs : List Call3) (hv : m.valid = true) :
     rw [List.foldl_cons]
     exact ⟨a.trans c1, b.trans c2⟩
 
+
+
+/-! ### the item stays well formed through any sequence of producers -/
+
+theorem apply3_item_wf (m : Msg) (c : Call3) (hw : m.item.wfS = true)
+    (hc : ∀ e, c = .fill e → Env.itemsWfS e = true) : (apply3 m c).item.wfS = true := by
+  cases c with
+  | wait w =>
+    simp only [apply3, apply]
+    cases h : m.setWaitBit w with
+    | none => simpa using hw
+    | some m' =>
+      simp only [Option.getD_some]
+      unfold Msg.setWaitBit at h
+      split at h
+      · injection h with h; rw [← h]; exact hw
+      · obtain ⟨rfl, _⟩ := checked_some _ _ h; exact hw
+  | session sid sys =>
+    simp only [apply3, apply]
+    cases h : m.setSession sid sys with
+    | none => simpa using hw
+    | some m' =>
+      simp only [Option.getD_some]
+      unfold Msg.setSession at h
+      obtain ⟨rfl, _⟩ := checked_some _ _ h; exact hw
+  | fill e =>
+    simp only [apply3]
+    cases h : m.fill e with
+    | none => simpa using hw
+    | some m' =>
+      simp only [Option.getD_some]
+      unfold Msg.fill at h
+      cases hf : m.item.fill e with
+      | none => simp [hf] at h
+      | some it =>
+        simp only [hf, Option.bind_some] at h
+        obtain ⟨rfl, _⟩ := checked_some _ _ h
+        exact m.item.fill_wfS it e hw (hc e rfl) hf
+
+/-- **any sequence of SetWaitBit / SetSessionIDAndSystemBytes / FillVariables calls** (refused
+calls included, ellipsis expansion included) on a message with a well-formed item leaves a message
+with a well-formed item: every name valid, no name twice anywhere -/
+theorem producers_seq_item_wf (m : Msg) (cs : List Call3) (hw : m.item.wfS = true)
+    (hc : ∀ c ∈ cs, ∀ e, c = .fill e → Env.itemsWfS e = true) :
+    (cs.foldl apply3 m).item.wfS = true ∧ nodupNames (cs.foldl apply3 m).item.vars = true := by
+  induction cs generalizing m with
+  | nil => exact ⟨hw, wfS_vars_nodup _ hw⟩
+  | cons c r ih =>
+    rw [List.foldl_cons]
+    exact ih (apply3 m c) (apply3_item_wf m c hw (hc c (List.mem_cons_self ..)))
+      (fun c' hc' => hc c' (List.mem_cons_of_mem _ hc'))
 
 /-! ### tie to the source: the bounds used by DataMessage.checkRep -/
 theorem facts_checkrep_bounds :
